@@ -235,6 +235,48 @@ Theorem repository_reads_refuse_without_privilege : forall r cfg us rq u,
 Proof. exact see_routes_refuse_lemma. Qed.
 Print Assumptions repository_reads_refuse_without_privilege.
 
+(* ---- AuthorizeUnrestricted and checkAuthorization (translated) ---- *)
+(* (T) UserInfo.AuthorizeUnrestricted - the only administrator test of serveSysCtrl, checkAuth (/backup/...), requireAdmin
+   (tsdb creation, repository / logstream management, recall, stream tasks) - is the administrator flag and nothing else *)
+Theorem authorize_unrestricted_is_the_admin_flag : uexpr_is_admin unrestricted_now = true.
+Proof. exact unrestricted_check. Qed.
+Print Assumptions authorize_unrestricted_is_the_admin_flag.
+
+Theorem authorize_unrestricted_code : forall u, eval_uexpr unrestricted_now (u_admin u) (u_rw u) = Some (u_admin u).
+Proof. exact unrestricted_code_is_admin. Qed.
+
+(* so an account with partition privileges is refused, with no effect, on every route of this run's table whose handler
+   asks for the administrator *)
+Theorem rwuser_refused_on_admin_routes : forall r cfg us rq u,
+  In r routes -> r_sig r = SigUser ->
+  auth_enabled cfg = true -> admin_exists us = true -> valid_creds cfg us (rq_creds rq) u -> u_rw u = true -> u_admin u = false ->
+  eval_uexpr unrestricted_now (u_admin u) (u_rw u) = Some false /\
+  serve shape_now cfg us r KAdminOnly rq = (403, []).
+Proof. exact rwuser_refused_on_admin_routes_lemma. Qed.
+Print Assumptions rwuser_refused_on_admin_routes.
+
+(* (T) Handler.checkAuthorization leaves with a non-nil error for EVERY error of QueryAuthorizer.AuthorizeQuery *)
+Theorem check_authorization_hands_on_every_error : check_authz_returns_all_now = true.
+Proof. exact check_authz_check. Qed.
+Print Assumptions check_authorization_hands_on_every_error.
+
+(* its contract in the model: the handler goes on iff the authorizer answered nil ... *)
+Theorem check_authorization_contract : forall u db q, check_authorization (query_result u db q) = authorize_query u db q.
+Proof. exact check_authorization_spec. Qed.
+
+(* ... so an authorizer error of ANY kind (refusal or other) gives 403 and no effect *)
+Theorem any_authorizer_error_refuses : forall sh cfg us r q rq u,
+  auth_enabled cfg = true -> admin_exists us = true -> authenticated sh r = true -> always_rejects r = false ->
+  valid_creds cfg us (rq_creds rq) u -> query_result u (rq_db rq) q <> AuthzOk ->
+  serve sh cfg us r (KQuery q) rq = (403, []).
+Proof. exact any_authorizer_error_refuses_lemma. Qed.
+Print Assumptions any_authorizer_error_refuses.
+
+(* the error that is not an authorization error exists: RequiredPrivileges fails for the statement (invalid source) *)
+Theorem invalid_source_is_an_other_error : forall u db s q,
+  In RInvalid s -> u_admin u = false -> ~ In RRwAllow s -> query_result u db (s :: q) = AuthzOtherError.
+Proof. exact invalid_source_is_other_error. Qed.
+
 (* ---- log-store listings (GET /api/v1/repository, repair 3986ddb) ---- *)
 (* a listing returns exactly the repositories of the catalogue the user may read or write ... *)
 Theorem listing_exact : forall u dbs d,
@@ -366,4 +408,13 @@ Example C19_example_handler_facts :
   guard_ok [] (mk_hguard "POST" "/repo/{repository}/logstreams/{logStream}/records" []) = false /\
   guard_ok ["C19-logstore-data-unprivileged"] (mk_hguard "POST" "/repo/{repository}/logstreams/{logStream}/records" []) = true /\
   (5 <? N.of_nat (length handler_guards)) = true.
+Proof. vm_compute. repeat split. Qed.
+
+Example C19_example_other_error :
+  query_result (mk_user "wo" "wopw" false false [("db1", WritePriv)]) "db1" [[RInvalid]] = AuthzOtherError /\
+  query_result (mk_user "wo" "wopw" false false [("db1", WritePriv)]) "db1" [[RDb "" ReadPriv]] = AuthzDenied /\
+  serve shape_now ex_cfg ex_users ex_route (KQuery [[RInvalid]]) (ex_rq "ro" "ropw") = (403, []) /\
+  serve shape_now ex_cfg ex_users ex_route (KQuery [[RInvalid]]) (ex_rq "rw" "rwpw") = (403, []) /\
+  serve shape_now ex_cfg ex_users ex_route (KQuery [[RInvalid]]) (ex_rq "root" "rootpw") = (200, [EffQuery "db1" [[RInvalid]]]) /\
+  eval_uexpr (UOr UAdmin URw) false true = Some true /\ uexpr_is_admin (UOr UAdmin URw) = false /\ uexpr_is_admin UAdmin = true.
 Proof. vm_compute. repeat split. Qed.
